@@ -12,6 +12,7 @@ func init() {
 		Rules: append(writerRules("W1", "W2", "W3", "W4", "W5", "W8"),
 			RuleDef{Name: "CUR-WRITE", What: "Writer.Write: bytes copied advance the source slice, the block cursor and the returned count together; the copy lands at the cursor", Floor: 1, Run: ruleCurWrite},
 			RuleDef{Name: "OWN-WRITE-ARG", What: "Writer.Write only measures, reslices and copies from its argument (shared with C08)", Floor: 1, Run: ruleWriteArgOwned},
+			RuleDef{Name: "POOL-BARE", What: "every decompressor sent to the read-ahead pool is new or had its block taken by wait() (void if the worker tests the error before deriving the next offset); added after seed C01-d", Floor: 4, Run: rulePoolBare},
 			RuleDef{Name: "CUR-COUNT", What: "countReader.off advances by exactly what was consumed (Read, ReadByte, seek)", Floor: 3, Run: ruleCurCount},
 			bgzfConst, bsize,
 			RuleDef{Name: "PATH-NEED", What: "the reader accepts every member size a conforming writer can produce (1..MaxBlockSize) and classifies 0 / negative / missing BSIZE", Floor: 1, Run: ruleNeed},
